@@ -276,6 +276,9 @@ def vec_resize(c):
     if isinstance(cur0, Seq) and cur0.content() is not None and isinstance(c.args[0], Ref) and len(c.args) > 2 and c.it.is_zero_value(c.st, c.args[2]) \
             and c.st.sys.entails_ge(n - cur0.len):
         c.it.store(c.st, c.args[0].cell, c.args[0].path, Seq(n, None, None, None, ("cat", cur0.content(), cur0.len, ("zeros",))))
+    elif isinstance(cur0, Seq) and cur0.content() is not None and isinstance(c.args[0], Ref) and len(c.args) > 2 and c.st.sys.entails_ge(n - cur0.len):
+        # grown with a fill byte that is not known to be zero: the new bytes are some other content
+        c.it.store(c.st, c.args[0].cell, c.args[0].path, Seq(n, None, None, None, ("cat", cur0.content(), cur0.len, ("fill:%s/%d" % (c.fr.id, c.bb), Lin.const(0)))))
     return [(c.st, Struct())]
 
 
